@@ -46,6 +46,56 @@ theorem boundary_is_prefix {σ : Type} (h : Handler σ) (n N : Nat) (hn : n ≤ 
   | ok wn => rw [hi] at hN; exact ⟨wn, rfl, hN⟩
   | error f => rw [hi] at hN; cases hN
 
+/-! ### the same for a global step that changes from step to step (per-simulant clocks) -/
+
+theorem viter_add {W : Type} (S : VSys W) (n m : Nat) (w : W) : S.iter (n + m) w = S.iter m (S.iter n w) := by
+  induction n generalizing w with
+  | zero => simp [VSys.iter]
+  | succ n ih => rw [Nat.succ_add]; simp only [VSys.iter]; exact ih _
+
+/-- interrupting `run()` after any `n` completed steps (not beyond the end), restoring the backup of that boundary
+and calling `run()` again ends in the same world as the uninterrupted `run()` – for ANY step function, i.e. also
+when the step size changes during the run. (A crash in the middle of step `n+1` leaves exactly this backup on disk:
+the partial step is lost with the crashed process and is redone.) -/
+theorem vrun_resume {W : Type} (S : VSys W) (stop : Int) (n : Nat) :
+    ∀ (fuel : Nat) (w : W), n ≤ (S.run stop (fuel + n) w).1 →
+      (S.run stop fuel (S.iter n w)).2 = (S.run stop (fuel + n) w).2 := by
+  induction n with
+  | zero => intro fuel w _; rfl
+  | succ n ih =>
+    intro fuel w h
+    have e : fuel + (n + 1) = (fuel + n) + 1 := by omega
+    rw [e] at h ⊢
+    simp only [VSys.run] at h ⊢
+    by_cases hlt : S.time w < stop
+    · simp only [hlt, if_true] at h ⊢
+      simp only [VSys.iter]
+      exact ih fuel (S.step w) (by omega)
+    · simp only [hlt, if_false] at h
+      omega
+
+/-- … and the number of steps adds up: `n` before the interruption plus what the resumed run takes -/
+theorem vrun_resume_count {W : Type} (S : VSys W) (stop : Int) (n : Nat) :
+    ∀ (fuel : Nat) (w : W), n ≤ (S.run stop (fuel + n) w).1 →
+      (S.run stop fuel (S.iter n w)).1 + n = (S.run stop (fuel + n) w).1 := by
+  induction n with
+  | zero => intro fuel w _; rfl
+  | succ n ih =>
+    intro fuel w h
+    have e : fuel + (n + 1) = (fuel + n) + 1 := by omega
+    rw [e] at h ⊢
+    simp only [VSys.run] at h ⊢
+    by_cases hlt : S.time w < stop
+    · simp only [hlt, if_true] at h ⊢
+      simp only [VSys.iter]
+      have := ih fuel (S.step w) (by omega)
+      omega
+    · simp only [hlt, if_false] at h
+      omega
+
+-- non-vacuity: interrupting the varying-step clock of C01 after its first step
+example : (varying.run 4 100 (varying.iter 1 (0, 1))).2 = (varying.run 4 101 (0, 1)).2 := by decide
+
 -- non-vacuity: a concrete running world with a counting handler
 example : (iter (σ := Nat) (fun _ _ _ u => u + 1) 2
     ⟨⟨{ st := "population_creation", setupDone := true, created := true }, 0, 1, 3, []⟩, 0, "simulation_1"⟩).map
